@@ -95,7 +95,7 @@ def Call.rank : Call → Nat
   | .SR w _ _ => wt w + 8
   | .AF w k => wt w + (if isPost k then 1 else 4)
   | .DLW w _ _ => wt w + 2
-  | .DLF w _ => wt w + 1
+  | .DLF w which => if which = 0 then wt w + 1 else 1     -- only CONNECT's flush calls on (doConnRead)
   | .DCR w => wt w + 1
   | .DL w _ adv => wt w + (if adv then 6 else 3)
   | .DAS w _ adv =>
